@@ -3,7 +3,7 @@
 # record the axioms it reports.  Takes ~1 min per property file; run at the end, not on every change.
 cd /verif/build/coq || exit 2
 OUT=/verif/notes/coqchk.txt; : > $OUT
-for p in C01 C02 C03 C04 C05 C06 C07 C08 C09 C10 C11 C12 C13 C14 C15 C16 C17 C18 C19 C20; do
+for p in C01 C01R C02 C03 C04 C05 C06 C07 C08 C09 C10 C11 C12 C13 C14 C15 C16 C17 C18 C19 C20; do
   echo "===== PD.Properties.$p =====" >> $OUT
   timeout 3000 coqchk -silent -o -R . PD PD.Properties.$p >> $OUT 2>&1; echo "exit=$?" >> $OUT
 done
